@@ -1,6 +1,6 @@
 """Expected normalised sources (docstrings, annotations and logging calls removed, re-printed by ast.unparse) of the
 functions whose control flow Model/RewardGraph.lean, Model/Reward.lean and Model/RewardState.lean transcribe by hand.
-(The reward components' `calculate` methods are NOT here: they are translated statement by statement by reward_calc.py and
+(The reward components' `calculate` methods and `access_from_nested_dict` are NOT here: they are translated statement by statement by reward_calc.py and
 proved equivalent to their models for all inputs.)"""
 
 SHAPES = {
@@ -73,16 +73,6 @@ SHAPES = {
     if graph_has_cycle(graph):
         raise RuntimeError(('Detected cycle in agent reward sharing. Check the agent reward function ', 'configuration: reward sharing can only go one way.'))
     self._reward_calculation_order = topological_sort(graph)''',
-    'access_from_nested_dict': '''def access_from_nested_dict(dictionary, keys):
-    if keys is None:
-        return NOT_PRESENT_IN_STATE
-    key_list = [*keys]
-    if len(key_list) == 0:
-        return dictionary
-    k = key_list.pop(0)
-    if k not in dictionary:
-        return NOT_PRESENT_IN_STATE
-    return access_from_nested_dict(dictionary[k], key_list)''',
     'update_reward': '''def update_reward(self, state):
     return self.reward_function.update(state=state, last_action_response=self.history[-1])''',
     'save_reward_to_history': '''def save_reward_to_history(self):
